@@ -1,8 +1,8 @@
 (* C07 — operator form, tensor form and exact limits of a relaxation tensor agree.
-   Statements only; proofs in Proofs/C07.v and Proofs/C02.v; models in Model/C01.v, Model/C02.v.
+   Statements only; proofs in Proofs/C07.v, Proofs/C07diag.v and Proofs/C02.v; models in Model/C01.v, Model/C02.v.
    Over any commutative ring with conjugation, every dimension n and number of bath components Nb. *)
 From Coq Require Import ZArith List Bool Arith.
-From QV Require Import Base.Alg Base.Sums Base.Mat Base.Tens Base.Taylor Base.TaylorG Model.C01 Model.C02 Model.C07glue Proofs.C01 Proofs.C07 Proofs.C02 Proofs.C07gen.
+From QV Require Import Base.Alg Base.Sums Base.Mat Base.Tens Base.Taylor Base.TaylorG Model.C01 Model.C02 Model.C07glue Proofs.C01 Proofs.C07 Proofs.C02 Proofs.C07gen Proofs.C07diag.
 Import ListNotations.
 
 (* the tensor built by _convert_operators_2_tensor, applied by tensordot, acts on EVERY operator exactly as the
@@ -112,3 +112,36 @@ Theorem c07_td_operator_walk :
   (ops_td_walk OpsWalkPinned 2 2 1 10 = [1; 1; 2; 2]%nat /\ td_walk WalkRepaired 4 1 1 10 = [1; 2; 3; 4]%nat).
 Proof. exact ops_td_walk_spec. Qed.
 Print Assumptions c07_td_operator_walk.
+
+(* ---- the exact pure-dephasing limit, algebraic half.  Uncoupled sites: diagonal Hamiltonian, diagonal K_m and diagonal Lambda_m /
+   Lambda_m^+ (they are functions of the diagonal Hamiltonian and K_m; the check verifies these hypotheses on the operators of the
+   real tensors in the site basis).  Operator form with operators that may change with the refined step (so the time-dependent
+   tensor too, by c07_td_operator_form_eq_tensor_form), any expansion order, refinement and number of steps, any map D applied after
+   each refined step that leaves the diagonal alone resp. multiplies the element by a factor (pure dephasing does):
+   the populations never move, and every matrix element of every stored state is the propagation of a SCALAR, multiplied in refined
+   step j by the truncated exponential of dt * coef_j with
+     coef = -i (h_a - h_b) + sum_m (k_ma conj(l)_mb + l_ma k_mb - k_ma l_ma - conj(l)_mb k_mb).
+   What separates the code's result from exp(-i w t - g(t)) is therefore only the truncation of a scalar exponential and the quadrature
+   behind Lambda_m(t) - that part is validated numerically, not proved. *)
+Theorem c07_uncoupled_populations_constant : forall (R : StarRing) (im : R) n (H : @mat R) Nb (Km : nat -> @mat R) (Lm Ld : nat -> nat -> @mat R),
+  diagonal n H -> (forall m, diagonal n (Km m)) -> (forall j m, diagonal n (Lm j m)) -> (forall j m, diagonal n (Ld j m)) ->
+  forall (D : nat -> @mat R -> @mat R) prefs nsteps nref rho0 a, (a < n)%nat -> (forall j x, D j x a a = x a a) ->
+  Forall (fun rho => rho a a = rho0 a a) (dm_traj n (fun j => G_ops im n H Nb Km (Lm j) (Ld j)) D prefs nsteps nref rho0).
+Proof.
+  intros R im n H Nb Km Lm Ld h1 h2 h3 h4 D prefs nsteps nref rho0 a Ha HD.
+  exact (populations_constant im n H Nb h1 Km Lm Ld h2 h3 h4 D prefs nsteps nref rho0 a Ha HD).
+Qed.
+Print Assumptions c07_uncoupled_populations_constant.
+
+Theorem c07_uncoupled_sites_propagate_elementwise : forall (R : StarRing) (im : R) n (H : @mat R) Nb (Km : nat -> @mat R) (Lm Ld : nat -> nat -> @mat R),
+  diagonal n H -> (forall m, diagonal n (Km m)) -> (forall j m, diagonal n (Lm j m)) -> (forall j m, diagonal n (Ld j m)) ->
+  forall (D : nat -> @mat R -> @mat R) (d : nat -> R) prefs nsteps nref rho0 a b, (a < n)%nat -> (b < n)%nat ->
+  (forall j x, D j x a b = rmul R (x a b) (d j)) ->
+  Forall2 (fun rho x => rho a b = x)
+          (dm_traj n (fun j => G_ops im n H Nb Km (Lm j) (Ld j)) D prefs nsteps nref rho0)
+          (scalar_traj im H Nb Km Lm Ld a b d prefs nsteps nref (rho0 a b)).
+Proof.
+  intros R im n H Nb Km Lm Ld h1 h2 h3 h4 D d prefs nsteps nref rho0 a b Ha Hb HD.
+  exact (propagation_elementwise im n H Nb h1 Km Lm Ld h2 h3 h4 D d prefs nsteps nref rho0 a b Ha Hb HD).
+Qed.
+Print Assumptions c07_uncoupled_sites_propagate_elementwise.
